@@ -202,9 +202,14 @@ def expected_max(bits, cols, rows, mode):
 
 
 # ---------------------------------------------------------------------------------- MGE
+# the two flag bytes of an MGE header mean "zero / not zero": files in the wild carry 1, 255 and other non-zero values
+MGE_FLAG = [1]
+
+
 def mge_header(palette, rgb=True, compressed=False, title=b"TITLE", cycles=0, cycpal=0):
     t = title[:29] + b"\0" * (30 - len(title[:29]))
-    return bytes([0]) + bytes(palette) + bytes([0 if rgb else 1]) + bytes([0 if compressed else 1]) + t + bytes([cycles, cycpal])
+    nz = MGE_FLAG[0]
+    return bytes([0]) + bytes(palette) + bytes([0 if rgb else nz]) + bytes([0 if compressed else nz]) + t + bytes([cycles, cycpal])
 
 
 def rle_pairs(data, rng, preset):
